@@ -8,6 +8,14 @@ tie:    model `feedAll` (driver `codec.feed`) vs the REAL `socket_read_task` (`c
 oracle: implementation only – for every chunking the deliveries equal those of the single read of the
         same stream, equal the frames put in (messages compared with the independent `ref_parse`), the
         residual buffer is a proper marker prefix that the last junk block ends with.
+size:   the fake socket honours the `n` of `read(n)` (a burst longer than n is handed out in n-byte slices, the
+        slices the task really got are what the model is fed): frames whose total length is 4096±1, bodies of
+        9999/10000/10001 and 65536±1 bytes, streams of k×4096(±1) bytes of small frames; bursts that make a read
+        return exactly n bytes first / last / in the middle, cuts at multiples of n ±1.
+history: harness/c03_hist.py – one connection object, 2–4 connections in a row (acceptor via _handle_accept /
+        initiator via connect()), each ended by Logout handshake / EOF / watchdog / application disconnect with
+        trailing bytes of a further frame; real session layer and journal; every connection must hand over exactly
+        the frames sent on it whatever the chunking of this and earlier connections.
 """
 from __future__ import annotations
 
@@ -16,6 +24,7 @@ import json
 import os
 import random
 
+from . import c03_hist as H
 from . import codec_common as K
 from . import common as C
 
@@ -24,6 +33,14 @@ PROPS_MODULES = ["AsyncFix.Props.C03", "AsyncFix.Props.C03Full"]
 ASSUMPTIONS = [
     "the connection stays connected while the reads are processed (the state test at the top of the inner loop is outside the model)",
     "a read returns a non-empty byte string (an empty read is EOF for the real task; the model proves empty chunks harmless)",
+    "the read size (4096) is not a parameter of the model: the theorems hold for every chunk list, so also for every list of "
+    "chunks of at most n bytes; that the task decodes after EVERY read whatever its length is tied by the correspondence "
+    "(fake socket that honours n, bursts that make reads return exactly n bytes) and judged by the oracle",
+    "several connections on one object: the model of ONE connection is `feedAll` from the EMPTY buffer over the reads of that "
+    "connection; a connection cut off before its stream is complete is covered by theorem reader_truncated_stream (exactly the "
+    "frames that arrived completely are handed over, for every chunking); that the loop stops at the frame whose processing "
+    "disconnects (Logout) and that disconnect() empties the buffer for every way a connection can end and for both roles is "
+    "covered by correspondence + oracle only (harness/c03_hist.py), not by a theorem",
     "every valid frame decodes on its own (hypothesis `∃ m, decode bs tbl f = .msg m …` of the theorems; discharged by the "
     "C10/C01 no-raise + round-trip theorems, composed at integration) – sampled here by the oracle on every generated frame",
 ]
@@ -37,6 +54,46 @@ PARTIALS = [b"8", b"8=", b"8=F", b"8=FI", b"8=FIX"]
 JUNK_PIECES = PARTIALS + [b"\x01", b"10=", b"\x0110=123\x01", b"9=12\x01", b"FIX.4.4", b"=", b"35=0\x01", b"8=FIX4", b"\x0110=",
                           b"xyz", b" ", b"\x00", b"\xff", b"8=8=", b"88=FIX"]
 CORPUS_GLOB = os.path.join(C.VERIF, "corpus", "codec", "c03_*.json")
+
+
+# ------------------------------------------------------------------ the socket: honours the n of read(n)
+class BurstReader(K._ChunkReader):
+    """what arrived is a list of bursts; read(n) returns at most n bytes of the oldest burst; silent afterwards"""
+
+    def __init__(self, chunks):
+        super().__init__(chunks)
+        self.seen = []
+
+    async def read(self, n):
+        import asyncio
+
+        if not self.chunks:
+            raise asyncio.CancelledError()
+        c = self.chunks[0]
+        if len(c) <= n:
+            self.chunks.pop(0)
+        else:
+            self.chunks[0] = c[n:]
+            c = c[:n]
+        self.seen.append(c)
+        return c
+
+
+def run_bursts(bursts):
+    """the REAL socket_read_task over a socket on which `bursts` arrive; returns (reply, the reads the task got)"""
+    made = []
+
+    def factory(chunks):
+        r = BurstReader(chunks)
+        made.append(r)
+        return r
+    orig = K._ChunkReader
+    K._ChunkReader = factory
+    try:
+        reply = K.run_reader(bursts)
+    finally:
+        K._ChunkReader = orig
+    return reply, made[0].seen
 
 
 # ------------------------------------------------------------------ streams
@@ -108,6 +165,89 @@ def gen_stream(rng, k, junk, small=False):
     return {"frames": frames, "gs": gs, "prop": junk != "marker", "kind": f"{k}f/{junk}" + ("/small" if small else "")}
 
 
+READ = 4096
+
+
+def sized_frame(seq, total=None, body=None, mtype="D"):
+    """a valid frame with a long Text whose total length / BodyLength is exactly the given number"""
+    fixed = [f"35={mtype}", "49=S", "56=T", f"34={seq}", "11=ord"]
+    blen = lambda f: int(f.split(b"\x01")[1][2:])     # noqa: E731
+    for pad in ("", "a", "ab"):
+        lo = K.ref_frame(fixed + ["1=" + pad, "58="])
+        if body is not None:
+            if body < blen(lo):
+                continue
+            f = K.ref_frame(fixed + ["1=" + pad, "58=" + "x" * (body - blen(lo))])
+            assert blen(f) == body
+            return f
+        for n in range(max(0, total - len(lo) - 8), total - len(lo) + 1):
+            f = K.ref_frame(fixed + ["1=" + pad, "58=" + "x" * n])
+            if len(f) == total:
+                return f
+    raise RuntimeError("no frame of that size")
+
+
+def gen_big_stream(rng, kind):
+    """kinds: frame4096[-1|+1], body9999 / body10000 / body10001, body65535 / body65536 / body65537, kx4096[-1|+1]"""
+    small = lambda i: K.ref_frame(rng.choice(SESSION_FRAMES[:6]))     # noqa: E731
+    if kind.startswith("frame"):
+        d = int(kind[5:])
+        frames = [sized_frame(1, total=d)]
+        if rng.random() < 0.5:
+            frames = [small(0)] + frames
+        if rng.random() < 0.5:
+            frames.append(small(2))
+    elif kind.startswith("body"):
+        frames = [small(0), sized_frame(2, body=int(kind[4:])), small(3)]
+    else:
+        k, d = kind.split("x")
+        g0 = gen_junk(rng, rng.choice(PARTIALS), allow_empty=False) if rng.random() < 0.4 else b""
+        target = int(k) * READ + int(d[4:] or 0) - len(g0)
+        frames, n = [], 0
+        while n < target - 600:
+            f = K.gen_frames(rng, 1, with_groups=True)[0] if rng.random() < 0.5 else small(0)
+            if n + len(f) > target - 200:
+                break
+            frames.append(f)
+            n += len(f)
+        frames.append(sized_frame(99, total=target - n))
+        return {"frames": frames, "gs": [g0] + [b""] * len(frames), "prop": True, "kind": "size/" + kind}
+    gs = [b""] * (len(frames) + 1)
+    if rng.random() < 0.4:
+        gs[rng.randrange(len(gs))] = gen_junk(rng, rng.choice(PARTIALS), allow_empty=False)
+    return {"frames": frames, "gs": gs, "prop": True, "kind": "size/" + kind}
+
+
+def big_cuts(rng, st):
+    """burst boundaries for a long stream: the socket slices every burst into reads of at most n bytes"""
+    n = len(interleave(st["gs"], st["frames"]))
+    out = [(), ]                                                      # one burst: reads n, n, …, rest
+    if n > READ:
+        out.append((n - READ,))                                       # … the LAST read returns exactly n bytes
+        out.append((n - READ - rng.randint(1, 300), n - READ))        # a short read, a full one, silence
+    if n >= READ:
+        out.append((READ,))                                           # the FIRST read returns exactly n bytes
+    r = rng.randint(1, min(n - 1, READ - 1))
+    out.append((r,))                                                  # a short first read shifts every slice
+    for d in (-1, 1):
+        cs = tuple(c for c in (k * READ + d for k in range(1, n // READ + 2)) if 0 < c < n)
+        if cs:
+            out.append(cs)                                            # bursts of n±1 bytes
+    pos, ends = 0, []
+    for j, f in enumerate(st["frames"]):
+        pos += len(st["gs"][j]) + len(f)
+        ends.append(pos)
+    out.append(tuple(e for e in ends if e < n))                       # a burst per frame
+    for _ in range(2):
+        m = rng.choice([1, 2, 4])
+        out.append(tuple(sorted(set(rng.randrange(1, n) for _ in range(m)))))
+    return [c for c in dict.fromkeys(out)]
+
+
+SIZE_KINDS_Q = ["frame4095", "frame4096", "frame4097", "body9999", "body10000", "body10001", "1x4096", "2x4096", "2x4096+1", "3x4096-1"]
+SIZE_KINDS_T = SIZE_KINDS_Q + ["body65535", "body65536", "body65537", "1x4096+1", "1x4096-1", "3x4096", "5x4096"]
+
+
 def load_corpus():
     out = []
     for path in sorted(glob.glob(CORPUS_GLOB)):
@@ -131,7 +271,7 @@ def build_jobs(ctx, rng, harder=False):
         jobs += [(i, tuple(c)) for c in s["cuts"]]
         jobs += [(i, (c,)) for c in range(1, n)]
         jobs.append((i, tuple(range(1, n))))
-    reps = ctx.n(2, 3) * (2 if harder else 1)
+    reps = ctx.n(1, 3) * (2 if harder else 1)
     for _ in range(reps):
         for k in (1, 2, 3, 4):
             for junk in ("none", "free", "free", "marker"):
@@ -156,6 +296,18 @@ def build_jobs(ctx, rng, harder=False):
             pos = len(interleave(st["gs"][: j + 1] + [b""], st["frames"][:j])) if j else len(st["gs"][0])
             cuts = sorted(set(cuts) | {c for c in range(max(1, pos - 3), min(n, pos + 9))})
         jobs.append((i, tuple(cuts)))
+    # SIZE: long frames / long streams through a socket that hands out at most n bytes per read
+    kinds = list(SIZE_KINDS_T if ctx.tier == "thorough" else SIZE_KINDS_Q)
+    if ctx.tier != "thorough":
+        kinds.append(rng.choice(["body65535", "body65536", "body65537"]))
+    for kind in kinds:
+        st = gen_big_stream(rng, kind)
+        streams.append(st)
+        i = len(streams) - 1
+        cs = big_cuts(rng, st)
+        if kind.startswith("body65") and ctx.tier != "thorough":
+            cs = cs[:4]
+        jobs += [(i, c) for c in cs]
     if ctx.tier == "thorough" or harder:
         # every 2-cut partition of small 3-frame streams
         for junk in ("none", "free", "free", "free", "marker", "free") if ctx.tier == "thorough" else ("free",):
@@ -252,24 +404,43 @@ def single_clauses(st, single):
 
 # ------------------------------------------------------------------ parallel runner
 _STREAMS = None
+_POOL = None
+
+
+def get_pool():
+    """one pool of worker processes for the whole check (forking is the expensive part on a loaded machine)"""
+    global _POOL
+    if _POOL is None:
+        import atexit
+        import multiprocessing as mp
+
+        _POOL = mp.get_context("fork").Pool(max(1, min(12, os.cpu_count() or 1)))
+        atexit.register(_POOL.terminate)
+    return _POOL
 
 
 def _work(args):
     """one batch of jobs: driver + real reader + clauses.  Returns (disagreements, failures, stats)."""
-    jobs, with_model = args
+    global _STREAMS
+    _STREAMS, jobs, with_model = args
     singles = {}
     dis, fails = [], []
-    stats = {"in_marker": 0, "in_bodylength": 0, "in_checksum": 0, "in_junk": 0, "nontrivial": 0}
-    lines = []
+    stats = {"in_marker": 0, "in_bodylength": 0, "in_checksum": 0, "in_junk": 0, "nontrivial": 0,
+             "some_read_exactly_4096": 0, "last_read_exactly_4096": 0, "first_read_exactly_4096": 0, "reads_ge_4096_bytes_total": 0}
+    lines, impl = [], []
     for (i, cuts) in jobs:
         st = _STREAMS[i]
-        chunks = K.split_at(st["bytes"], cuts)
-        lines.append("codec.feed " + " ".join(C.cp(x) for x in chunks))
+        il, seen = run_bursts(K.split_at(st["bytes"], cuts))
+        impl.append(il)
+        lines.append("codec.feed " + " ".join(C.cp(x) for x in seen))
+        if any(len(x) == READ for x in seen):
+            stats["some_read_exactly_4096"] += 1
+            stats["last_read_exactly_4096"] += len(seen[-1]) == READ
+            stats["first_read_exactly_4096"] += len(seen[0]) == READ
+        stats["reads_ge_4096_bytes_total"] += len(st["bytes"]) >= READ
     model = C.Driver().batch(lines) if with_model else [None] * len(jobs)
-    for (i, cuts), ml in zip(jobs, model):
+    for (i, cuts), ml, il in zip(jobs, model, impl):
         st = _STREAMS[i]
-        chunks = K.split_at(st["bytes"], cuts)
-        il = K.run_reader(chunks)
         if with_model and il != ml:
             dis.append({"input": job_input(st, cuts), "model": ml[:600], "impl": il[:600]})
         where = classify_cuts(st, cuts)
@@ -277,7 +448,7 @@ def _work(args):
             stats[k2] += 1
         if st["prop"]:
             if i not in singles:
-                singles[i] = K.run_reader([st["bytes"]])
+                singles[i] = run_bursts([st["bytes"]])[0]
             for sig, what, exp, obs in clauses(st, il, singles[i]):
                 fails.append({"signature": sig, "what": what, "input": job_input(st, cuts), "expected": exp, "observed": obs})
     return dis, fails, stats
@@ -313,28 +484,108 @@ def job_input(st, cuts):
 
 
 def run_jobs(streams, jobs, with_model=True):
-    global _STREAMS
-    import multiprocessing as mp
-
     for s in streams:
         s["bytes"] = interleave(s["gs"], s["frames"])
-    _STREAMS = streams
-    nproc = max(1, min(16, os.cpu_count() or 1))
-    size = max(50, min(600, len(jobs) // (nproc * 4) + 1))
-    batches = [(jobs[a : a + size], with_model) for a in range(0, len(jobs), size)]
+    nproc = max(1, min(12, os.cpu_count() or 1))
+    small = [j for j in jobs if len(streams[j[0]]["bytes"]) < 3000]
+    big = sorted((j for j in jobs if len(streams[j[0]]["bytes"]) >= 3000), key=lambda j: -len(streams[j[0]]["bytes"]))
+    size = max(50, min(600, len(small) // (nproc * 4) + 1))
+    batches = []
+    a = 0
+    while a < len(big):                                   # long streams: few jobs per batch (the model is O(n) per read)
+        k = max(1, 150000 // len(streams[big[a][0]]["bytes"]))
+        batches.append(big[a : a + k])
+        a += k
+    batches += [small[a : a + size] for a in range(0, len(small), size)]
+    batches = [({i: streams[i] for i in {j[0] for j in b}}, b, with_model) for b in batches]
     dis, fails = [], []
     stats = {}
     if nproc == 1 or len(batches) == 1:
         results = [_work(b) for b in batches]
     else:
-        with mp.get_context("fork").Pool(nproc) as pool:
-            results = pool.map(_work, batches)
+        results = get_pool().map(_work, batches, chunksize=1)
     for d, f, s in results:
         dis += d
         fails += f
         for k, v in s.items():
             stats[k] = stats.get(k, 0) + v
     return dis, fails, stats
+
+
+# ------------------------------------------------------------------ history: several connections on one object
+_HISTS = None
+
+
+def build_hists(ctx, rng, harder=False):
+    """[{hist, cuts:[cutlists…]}]: every (role, way the first connection ends) at least once, then random"""
+    hs = []
+    for role in H.ROLES:
+        for e1 in H.ENDS:
+            hs.append(H.gen_history(rng, role, ends=[e1] + [rng.choice(H.ENDS) for _ in range(3)],
+                                    first_tail=rng.choice(["frame-prefix", "frame-head"])))
+    for _ in range(ctx.n(16, 150) * (2 if harder else 1)):
+        hs.append(H.gen_history(rng))
+    return [{"hist": h, "cuts": H.chunkings(rng, h, ctx.n(2, 4))} for h in hs]
+
+
+def _work_hist(args):
+    global _HISTS
+    _HISTS, jobs, with_model = args
+    canon, dis, fails = {}, [], []
+    stats = {}
+    runs, lines = [], []
+    for (h, ci) in jobs:
+        hist, cl = _HISTS[h]["hist"], _HISTS[h]["cuts"][ci]
+        res = H.run_with(hist, cl)
+        if h not in canon:
+            canon[h] = res if ci == 0 else H.run_with(hist, _HISTS[h]["cuts"][0])
+        runs.append(res)
+        for d, c in zip(hist["days"], cl):
+            lines.append("codec.feed " + " ".join(C.cp(x) for x in H.model_chunks(d, c)))
+        key = "%s/%s" % (hist["role"], ">".join(d["end"] for d in hist["days"][:-1]) + ">")
+        stats[key] = stats.get(key, 0) + 1
+    model = C.Driver().batch(lines) if with_model and lines else [None] * len(lines)
+    li = 0
+    for (h, ci), res in zip(jobs, runs):
+        hist, cl = _HISTS[h]["hist"], _HISTS[h]["cuts"][ci]
+        inp = H.hist_input(hist, cl)
+        for k, r in enumerate(res):
+            ml = model[li]
+            li += 1
+            if ml is None:
+                continue
+            mt = ml.split(" ")
+            mdel = " ".join(mt[3:])
+            idel = H.deliveries_tok(r["delivered"]).strip()
+            if mt[2] != "-" or mdel != idel:
+                dis.append({"input": inp, "model": f"connection {k + 1}: " + ml[:500], "impl": f"connection {k + 1}: {r['state']} {r['flag']} " + idel[:500]})
+                break
+        for sig, what, exp, obs in H.clauses(hist, res, canon[h]):
+            fails.append({"signature": sig, "what": what, "input": inp, "expected": exp, "observed": obs})
+    return dis, fails, stats
+
+
+def run_hist_jobs(hists, jobs, with_model=True):
+    nproc = max(1, min(12, os.cpu_count() or 1))
+    size = max(4, min(40, len(jobs) // (nproc * 2) + 1))
+    # consecutive jobs are the chunkings of one history (its canonical run is computed once per batch)
+    batches = [jobs[a : a + size] for a in range(0, len(jobs), size)]
+    batches = [({h: hists[h] for h in {j[0] for j in b}}, b, with_model) for b in batches]
+    if nproc == 1 or len(batches) <= 1:
+        results = [_work_hist(b) for b in batches]
+    else:
+        results = get_pool().map(_work_hist, batches, chunksize=1)
+    dis, fails, stats = [], [], {}
+    for d, f, s in results:
+        dis += d
+        fails += f
+        for k, v in s.items():
+            stats[k] = stats.get(k, 0) + v
+    return dis, fails, stats
+
+
+def hist_jobs(hists):
+    return [(h, ci) for h in range(len(hists)) for ci in range(len(hists[h]["cuts"]))]
 
 
 _STASH = {"fails": [], "streams": [], "jobs": 0}
@@ -347,35 +598,56 @@ def correspondence(ctx):
     # single-read messages against the reference parser (implementation only; reported by the oracle)
     for st in streams:
         if st["prop"]:
-            single = K.run_reader([st["bytes"]])
+            single = run_bursts([st["bytes"]])[0]
             for sig, what, exp, obs in single_clauses(st, single):
                 fails.append({"signature": sig, "what": what, "input": job_input(st, ()), "expected": exp, "observed": obs})
-    _STASH["fails"], _STASH["streams"], _STASH["jobs"] = fails, streams, len(jobs)
+    hists = build_hists(ctx, random.Random(f"C03/hist/{ctx.seed}"))
+    hj = hist_jobs(hists)
+    hdis, hfails, hstats = run_hist_jobs(hists, hj, with_model=True)
+    dis += hdis
+    fails += hfails
+    tails, ndays = {}, {}
+    for h in hists:
+        ndays[len(h["hist"]["days"])] = ndays.get(len(h["hist"]["days"]), 0) + 1
+        for d in h["hist"]["days"]:
+            tails[d["tail_kind"]] = tails.get(d["tail_kind"], 0) + 1
+    _STASH["fails"], _STASH["streams"], _STASH["jobs"] = fails, streams, len(jobs) + len(hj)
     kinds = {}
     for s in streams:
         kinds[s["kind"]] = kinds.get(s["kind"], 0) + 1
     ncuts = {}
-    for _, cuts in jobs:
+    for i, cuts in jobs:
         b = "1" if len(cuts) == 1 else "2" if len(cuts) == 2 else "3-25" if len(cuts) <= 25 else "1-byte"
+        if streams[i]["kind"].startswith("size/"):
+            b = "bursts-sliced-by-read-size"
         ncuts[b] = ncuts.get(b, 0) + 1
     distinct = len({(i, c) for i, c in set(jobs) if "nontrivial" in classify_cuts(streams[i], c)})
     sample = []
     for (i, cuts) in jobs[:: max(1, len(jobs) // 4)][:4]:
-        sample.append({"input": job_input(streams[i], cuts), "reply": K.run_reader(K.split_at(streams[i]["bytes"], cuts))[:300]})
+        sample.append({"input": job_input(streams[i], cuts), "reply": run_bursts(K.split_at(streams[i]["bytes"], cuts))[0][:300]})
     return {
-        "evaluations": len(jobs),
-        "distinct_nontrivial": distinct,
+        "evaluations": len(jobs) + len(hj),
+        "distinct_nontrivial": distinct + len(hj),
         "rule": "corpus (corpus/codec/c03_*.json: historic D3 offsets, cuts in marker / BodyLength / CheckSum / before the last SOH, "
         "values containing 8=FIX.) + generated streams of 1–4 frames (session + application types, repeating groups, values with "
         "8=FIX. / 10= / 9=), junk none / marker-free (half of the blocks end in 8, 8=, 8=F, 8=FI, 8=FIX) / containing a marker "
         "(tie only); per stream every 1-cut partition and the 1-byte partition; random 2–25-cut partitions (30 % with a burst of "
         "1-byte reads around a frame start); thorough: every 2-cut partition of 6 small 3-frame streams. Compared: residual "
         "buffer, raise/stall flag, every delivered (msg type, container, raw frame). distinct = distinct (stream, cut set) pairs "
-        "with at least one cut strictly inside a frame",
+        "with at least one cut strictly inside a frame, plus the history runs. SIZE: the fake socket hands out at most the n "
+        "of read(n) per read and the model is fed the reads the task really got; frames of total length 4095/4096/4097, bodies of "
+        "9999/10000/10001 and 65535/65536/65537 bytes, streams of k×4096(±1) bytes; bursts: all at once, last / first read exactly n, "
+        "short read then full read then silence, bursts of n±1, a burst per frame, random. HISTORY (c03_hist.py): one object, 2–4 "
+        "connections, roles acceptor (_handle_accept) / initiator (connect()), ends Logout handshake / EOF / watchdog / application "
+        "disconnect, trailing bytes none / partial marker / frame head / frame prefix / junk / whole frame, chunkings canonical / one "
+        "read / last frame+tail in one read / cut inside the last frame / random with 1-byte reads around the last frame's end; per "
+        "connection the deliveries are compared with the model run from the empty buffer up to the terminating Logout",
         "samples": sample,
         "exhaustive": False,
         "distribution": {"streams": kinds, "partitions_by_cut_count": ncuts, "partitions_with_a_cut": stats,
-                         "stream_bytes": sorted(len(s["bytes"]) for s in streams)},
+                         "stream_bytes": sorted(len(s["bytes"]) for s in streams),
+                         "history": {"runs": len(hj), "histories": len(hists), "connections_per_history": ndays,
+                                     "trailing_bytes": tails, "role/ends_of_earlier_connections": hstats}},
         "disagreements": dis,
     }
 
@@ -388,9 +660,19 @@ def oracle(ctx, disagreements, broken):
     n_runs = _STASH["jobs"]
     rng = random.Random(f"C03/oracle/{ctx.seed}")
     extra_streams, extra_jobs = [], []
+    hist_first = []
     if broken:
         for d in disagreements[:200]:
             inp = d["input"]
+            if not isinstance(inp, dict):
+                continue
+            if "history" in inp:
+                if len(hist_first) < 40:
+                    h, cl = H.hist_from_input(inp)
+                    for dd in h["days"]:
+                        dd["tail_kind"] = "replayed"
+                    hist_first.append({"hist": h, "cuts": [H.chunkings(rng, h, 0)[0], cl]})
+                continue
             st = {"frames": [bytes.fromhex(x) for x in inp["frames"]], "gs": [bytes.fromhex(x) for x in inp["gs"]],
                   "prop": inp["prop"], "kind": "disagreement"}
             if not st["prop"]:
@@ -407,30 +689,53 @@ def oracle(ctx, disagreements, broken):
     extra_jobs += [(i + base, c) for i, c in j2]
     # the fresh sample of an intact run is modest; a broken run gets the full set
     if not broken:
-        keep = ctx.n(1500, 8000)
+        keep = ctx.n(800, 8000)
         if len(extra_jobs) > keep:
-            idx = sorted(rng.sample(range(len(extra_jobs)), keep))
-            extra_jobs = [extra_jobs[i] for i in idx]
+            sized = [j for j in extra_jobs if extra_streams[j[0]]["kind"].startswith("size/")]
+            rest = [j for j in extra_jobs if not extra_streams[j[0]]["kind"].startswith("size/")]
+            idx = sorted(rng.sample(range(len(rest)), keep))
+            extra_jobs = sized + [rest[i] for i in idx]
     _, f2, _ = run_jobs(extra_streams, extra_jobs, with_model=False)
     failures += f2
     for st in extra_streams:
         if st["prop"]:
-            for sig, what, exp, obs in single_clauses(st, K.run_reader([st["bytes"]])):
+            for sig, what, exp, obs in single_clauses(st, run_bursts([st["bytes"]])[0]):
                 failures.append({"signature": sig, "what": what, "input": job_input(st, ()), "expected": exp, "observed": obs})
     n_runs += len(extra_jobs)
+    hists = hist_first + build_hists(ctx, rng, harder=bool(broken))
+    if not broken:
+        hists = hists[: ctx.n(12, 60)]
+    hj = hist_jobs(hists)
+    _, f3, _ = run_hist_jobs(hists, hj, with_model=False)
+    failures += f3
+    n_runs += len(hj)
+
     # smallest witness first per signature
-    failures.sort(key=lambda f: (len("".join(f["input"]["frames"])) + len("".join(f["input"]["gs"])), len(f["input"]["cuts"])))
-    ctx.oracle_stats = {"reader_runs_judged": n_runs, "fresh_runs": len(extra_jobs), "failures": len(failures),
+    def size_key(f):
+        inp = f["input"]
+        if "history" in inp:
+            return (sum(len(x) for d in inp["history"]["days"] for x in d["frames"]), sum(len(d["cuts"]) for d in inp["history"]["days"]))
+        return (len("".join(inp["frames"])) + len("".join(inp["gs"])), len(inp["cuts"]))
+    failures.sort(key=size_key)
+    ctx.oracle_stats = {"reader_runs_judged": n_runs, "fresh_runs": len(extra_jobs), "fresh_history_runs": len(hj), "failures": len(failures),
                         "searched_harder": bool(broken)}
     return failures
 
 
 def replay(ctx, rp):
     inp = rp["input"]
+    if "history" in inp:
+        h, cl = H.hist_from_input(inp)
+        res = H.run_with(h, cl)
+        canon = H.run_with(h, H.chunkings(random.Random(0), h, 0)[0])
+        sigs = [c[0] for c in H.clauses(h, res, canon)]
+        print("replay:", h["role"], [(d["end"], c) for d, c in zip(h["days"], cl)], "->",
+              [(r["state"], r["flag"], [x[0] for x in r["delivered"]], r["cb"]) for r in res], sigs)
+        return rp["signature"] in sigs
     st = {"frames": [bytes.fromhex(x) for x in inp["frames"]], "gs": [bytes.fromhex(x) for x in inp["gs"]], "prop": True}
     st["bytes"] = interleave(st["gs"], st["frames"])
-    single = K.run_reader([st["bytes"]])
-    reply = K.run_reader(K.split_at(st["bytes"], inp["cuts"]))
+    single = run_bursts([st["bytes"]])[0]
+    reply = run_bursts(K.split_at(st["bytes"], inp["cuts"]))[0]
     sigs = [c[0] for c in clauses(st, reply, single)] + [c[0] for c in single_clauses(st, single)]
     print("replay: cuts", inp["cuts"], "->", reply[:300], sigs)
     return rp["signature"] in sigs
